@@ -255,6 +255,40 @@ def judge(case, rec):
         if k is not None:
             rec.violation("adding the unmatched reference %r changes %s: %r vs %r" % (
                 stale, k, ob[k], canon[k]), "stale-ref")
+        if slot in ("hide", "rename"):
+            # --- several unmatched references listed BEFORE the live one (they all translate
+            # --- to "nothing"; the live key must keep its own transform)
+            t_x = {"hide": True} if slot == "hide" else {"name": "RENAMED"}
+            el = {stale: {"name": "S1"}, "yyy": {"hide": True}, -7: {"name": "S3"},
+                  sp["alias"]: t_x}
+            ob = observe(lib.cube(resp, {own_name: {"elements": el}}).partitions[0])
+            rec.compared()
+            k = same(canon, ob)
+            if k is not None:
+                rec.violation("unmatched references %r, 'yyy', -7 listed before the live one "
+                              "change %s: %r vs %r" % (stale, k, ob[k], canon[k]),
+                              "stale-refs-first")
+            # --- two spellings of item x (same transform) listed before another live item y
+            others = [i for i, o in enumerate(sp_all) if i != x and "alias" in o]
+            alt = [r for r in sp if r != "alias"]
+            if others and alt:
+                y = others[case["pick"] % len(others)]
+                t_y = {"name": "OTHER"}
+                ref_el = {sp["alias"]: t_x, sp_all[y]["alias"]: t_y}
+                dup_el = {sp[alt[0]]: t_x, sp["alias"]: t_x}
+                if len(alt) > 1:
+                    dup_el[sp[alt[-1]]] = t_x
+                dup_el[sp_all[y]["alias"]] = t_y
+                o_ref = observe(lib.cube(resp, {own_name: {"elements": ref_el}}).partitions[0])
+                o_dup = observe(lib.cube(resp, {own_name: {"elements": dup_el}}).partitions[0])
+                rec.event("duplicate spellings before another item")
+                rec.compared()
+                k = same(o_ref, o_dup)
+                if k is not None:
+                    rec.violation("item %d spelled %r (same transform each) before item %d: %s "
+                                  "%r, with one spelling %r" % (
+                                      x, list(dup_el)[:-1], y, k, o_dup[k], o_ref[k]),
+                                  "duplicate-spellings")
         # second use of the same (rewritten in place) dictionaries must work too
         tx2 = build_transforms(case, own_name, opp_name, sp["alias"], extra=stale)
         c1 = lib.Cube(copy.deepcopy(resp), transforms=tx2)
